@@ -1,11 +1,30 @@
 (** C20 — equivalent spellings of a query mean the same thing. *)
 From Coq Require Import List ZArith NArith Bool Lia.
 From AG Require Import Str F64 Value Json Expr Ops Pipeline Filter Grammar Print
-     Roundtrip_proofs FilterRoundtrip_proofs Spelling_proofs Cli Cli_proofs.
+     Roundtrip_proofs FilterRoundtrip_proofs Spelling_proofs QueryRoundtrip Cli Cli_proofs.
 From AG Require Generated.
 Import ListNotations.
 Open Scope string_scope.
 Open Scope list_scope.
+
+(** *** whole queries: any two spellings of the same query (search part and every stage: json, logfmt,
+    parse, split, fields, where, field expressions, timeslice, limit, total, aggregations with `by`
+    keys, sort) compile to the same program — and to the one they were printed from (C04_query_roundtrip) *)
+Theorem C20_query_spellings_agree : forall (o1 o2 : popts) (fs : list filter) (stages : list stage) (t1 t2 : str),
+  popts_ok o1 = true -> popts_ok o2 = true -> forallb wf_filter fs = true ->
+  forallb (wf_stage o1) stages = true -> forallb (wf_stage o2) stages = true -> forallb stage_ok stages = true ->
+  pp_query o1 fs stages = Some t1 -> pp_query o2 fs stages = Some t2 ->
+  accepts t1 = accepts t2.
+Proof. exact query_spellings_agree. Qed.
+Print Assumptions C20_query_spellings_agree.
+
+(** one stage of any kind, in any spelling, followed by the end of the query or a pipe *)
+Theorem C20_stage_roundtrip : forall (o : popts) (st : stage) (t k : str),
+  popts_ok o = true -> wf_stage o st = true -> stage_ok st = true -> pp_stage o st = Some t ->
+  stage_stop k = true -> single_pipe k = true ->
+  exists lo, p_oper (t ++ k) = POk lo (skip_spaces k) /\ check_lop true lo = Some [st].
+Proof. exact stage_roundtrip. Qed.
+Print Assumptions C20_stage_roundtrip.
 
 (** *** expressions: any two spellings — whitespace runs of any kind and length, `and`/`&&`,
     `or`/`||`, `!=`/`<>`, either quote style, minimal or redundant parentheses, `["name"]` where a
